@@ -92,7 +92,7 @@ func resizeSweep(idx, n int) {
 		cw, ch int
 	}
 	protos := []proto{{"halfblock", 0, 1, 2}, {"fullblock", 0, 1, 2}}
-	for _, g := range [][2]int{{1, 1}, {2, 3}, {8, 16}, {10, 20}} {
+	for _, g := range [][2]int{{1, 1}, {2, 2}, {2, 3}, {8, 16}, {10, 20}} {
 		protos = append(protos, proto{"kitty", refterm.CapKittyGraphics | refterm.CapInBandResize | refterm.CapRGB, g[0], g[1]})
 		protos = append(protos, proto{"sixel", refterm.CapSixelDA1 | refterm.CapInBandResize | refterm.CapRGB, g[0], g[1]})
 	}
@@ -107,8 +107,14 @@ func resizeSweep(idx, n int) {
 		if p.cw > 2 {
 			scale = p.cw / 2 // larger geometries: image sizes in multiples so that several cells are covered
 		}
-		for wp := 1; wp <= maxPx; wp++ {
-			for hp := 1; hp <= maxPx; hp++ {
+		// small cell geometries: larger images too, so that pixel sizes that are not multiples of the
+		// cell size meet boxes where the two scale factors are close (rounding decides the row count)
+		mp := maxPx
+		if p.cw <= 2 && (p.name == "kitty" || p.name == "sixel") {
+			mp = 24
+		}
+		for wp := 1; wp <= mp; wp++ {
+			for hp := 1; hp <= mp; hp++ {
 				wPix, hPix := wp*scale, hp*scale
 				img := solid(wPix, hPix, color.NRGBA{200, 10, 10, 255})
 				for bw := 0; bw <= maxBox; bw++ {
@@ -645,7 +651,7 @@ func main() {
 	n := r.Get("resize_cases") + r.Get("block_cases") + r.Get("contain_cases") + trans
 	r.Finish(explore.Coverage{
 		States: -1, Transitions: n, Traces: n, Evaluations: n,
-		Rule: "Resize: every image size 1..12 x 1..12 px (scaled with the cell geometry) x every box 0..7 x 0..7 for half-block and full-block (cell 1x2) and for kitty and sixel under cell geometries 1x1, 2x3, 8x16, 10x20 (pixel sizes learnt through the in-band resize report): box, no-upscale and aspect-within-one-cell. Block rendering: every assignment of a 7-value pixel alphabet (opaque, alpha 0/49/50/128, premultiplied half alpha) to images of 1x1..2x3 pixels, drawn and rendered, cell colours read from the reference terminal. Containment: kitty, sixel and half-block images of 1..4 x 1..3 cells into 5 windows. Placement histories: BFS to depth n over 14 frames {A absent / at two positions} x {B} x {Render, Refresh} + resize A, for kitty and sixel; the graphics commands of the last frame are compared with what the placement diff requires. distinct = cases/states that passed",
+		Rule: "Resize: every image size 1..12 x 1..12 px (scaled with the cell geometry) x every box 0..7 x 0..7 for half-block and full-block (cell 1x2) and for kitty and sixel under cell geometries 1x1, 2x2, 2x3 (images up to 24x24 px), 8x16, 10x20 (pixel sizes learnt through the in-band resize report): box, no-upscale and aspect-within-one-cell. Block rendering: every assignment of a 7-value pixel alphabet (opaque, alpha 0/49/50/128, premultiplied half alpha) to images of 1x1..2x3 pixels, drawn and rendered, cell colours read from the reference terminal. Containment: kitty, sixel and half-block images of 1..4 x 1..3 cells into 5 windows. Placement histories: BFS to depth n over 14 frames {A absent / at two positions} x {B} x {Render, Refresh} + resize A, for kitty and sixel; the graphics commands of the last frame are compared with what the placement diff requires. distinct = cases/states that passed",
 		Exhaustive: true,
 		Bounds:     map[string]any{"placement_depth": r.Pick(4, 6), "placement_states": states},
 		Assumptions: []string{"un-premultiplied colours are compared with a tolerance of 1 per channel (rounding)", "aspect within one cell: some scale in (0,1] puts both dimensions within one cell of the result"},
